@@ -58,7 +58,7 @@ PROPS = {
             {"name": "c03_tamper", "quick": 3000, "thorough": 150000, "offset": 1, "chunk": 40, "run_timeout": 120, "crash_ok": True},
             {"name": "c03_push", "quick": 3000, "thorough": 200000, "offset": 2, "chunk": 100, "run_timeout": 120},
             {"name": "c03_ba_tamper", "quick": 2000, "thorough": 100000, "offset": 3, "chunk": 40, "run_timeout": 120, "crash_ok": True},
-            {"name": "c03_tamper", "quick": 0, "thorough": 40000, "offset": 4, "chunk": 40, "run_timeout": 120, "crash_ok": True, "flavour": "mt", "thorough_only": True},
+            {"name": "c03_tamper", "quick": 0, "thorough": 4000, "offset": 4, "chunk": 40, "run_timeout": 120, "crash_ok": True, "flavour": "mt", "thorough_only": True},
         ],
         "expected_probes": ["tamper_rejected_or_aborted", "site_bit", "site_generate_proof", "site_challenge", "site_diff", "site_p_times_q",
                             "honest_batch_accepted", "flip_rejected", "flip_entry_0", "flip_entry_6", "flip_in_later_batch", "width_3", "width_512", "pushed_in_permuted_order",
